@@ -1,33 +1,39 @@
 """C03 Unsubscribing silences the subscriber and frees its sources (virtual time, enumerated dispose points)."""
 from __future__ import annotations
 
+import sys
 from collections import Counter
 from typing import Any
 
+from reactivex import Observable
+
 from ..catalog import CATALOG
 from ..common import UnitResult, case_rng, chunks, show
+from ..vlab import CallbackProbe, ProbeObserver
 from . import _c01_pipeline as P
 
 ID = "C03"
 LEVEL = "exploration"
 RULE = ("seeded random pipelines (depth 1-4 from the %d-entry operator catalog, 1-3 conforming probe sources) are first run "
         "undisturbed to learn the number of scheduler actions A, the elements received R and the calls of every user "
-        "callback; then the same case is re-run once per dispose point: (a) dispose() before scheduler action j+1 for "
-        "sampled j from the subscribe action to the terminal action (quick <= 10 incl. first two and last; thorough <= 40), "
+        "callback; then the same case is re-run once per dispose point: (a) dispose() right after scheduler action j for "
+        "sampled j from the subscribe action (= before any deferred subscription effect) to the action before the terminal one (quick <= 10 incl. first two and last; thorough <= 40), "
         "(b) from inside the subscriber's k-th on_next, (c) from inside the k-th call of an operator callback, "
         "(d) every fifth case: the subscription is made inside a CurrentThreadScheduler (trampoline) action over library "
         "from_iterable sources and dispose() comes from inside the k-th on_next of the synchronous burst. One evaluation = "
         "one (case, dispose point). After dispose_ret: no notification at the disposed subscriber; no user-callback "
         "invocation (callbacks of stages up to the window/group operator are excused while a window/group probe that "
-        "was live at the dispose is still subscribed); every source subscription closed at the dispose instant (or, when "
+        "was live at the dispose is still subscribed; observed, not judged: callbacks made while an Observable.subscribe() "
+        "call that was already executing when dispose() was called has not returned yet, and -- dispose point (c) only -- "
+        "callbacks made by the very operator activation that was calling the disposing callback); every source subscription closed at the dispose instant (or, when "
         "window/group probes were live, by the instant the last of them ended) and none opened later and kept open. "
         "non-trivial = the subscriber had not terminated when dispose() was called; distinct = digest of (sources, "
         "pipeline with arguments, dispose point)" % len(CATALOG))
 ASSUMPTIONS = ["TestScheduler / HistoricalScheduler are the clock (C28)", "probe sources are harness code and conforming here",
                "the run is cut at virtual time 600", "window/group probes still subscribed are unsubscribed at t=500"]
 CASES = {"quick": 400, "thorough": 16000}
-REQUIRED = {"set:ops": len(CATALOG) - 10,
-            "disposed_while_live": {"quick": 2000, "thorough": 80000},
+REQUIRED = {"set:ops": len(CATALOG) - 12,
+            "disposed_while_live": {"quick": 1500, "thorough": 60000},
             "variant_a_at_action": {"quick": 1200, "thorough": 50000},
             "variant_b_in_on_next": {"quick": 250, "thorough": 10000},
             "variant_c_in_callback": {"quick": 150, "thorough": 6000},
@@ -36,6 +42,7 @@ REQUIRED = {"set:ops": len(CATALOG) - 10,
             "disposed_with_live_window": {"quick": 50, "thorough": 2000}}
 VARIANT_NAME = {"a": "at-action", "b": "in-on_next", "c": "in-callback", "d": "in-on_next-trampoline"}
 UNIT_TIMEOUT = {"quick": 600, "thorough": 7200}
+EXCLUDE = ("sub_on",)     # as in C02 (DESIGN: C03 runs C02's generator)
 
 
 def units(tier: str, seed: int) -> list[dict]:
@@ -50,12 +57,63 @@ def gen(seed: int, idx: int) -> tuple:
     r = case_rng(seed, ID, idx)
     depth = r.choice([1, 1, 2, 2, 3, 3, 4])
     if is_tramp(idx):
-        b = P.build(r, depth, clock="num", explicit_sched=True, main_kind="iter", kinds=("iter", "iter", "cold", "sync", "hot"),
+        b = P.build(r, depth, clock="num", exclude=EXCLUDE, explicit_sched=True, main_kind="iter",
+                    kinds=("iter", "iter", "cold", "sync", "hot"),
                     term_policy={"main": lambda rr: rr.choice(["C", "C", None, "E"])}, maxlen=6)
     else:
         clock = "dt" if r.random() < 0.1 else "num"
-        b = P.build(r, depth, clock=clock)
+        b = P.build(r, depth, clock=clock, exclude=EXCLUDE)
     return b, r.random() < 0.5
+
+
+SUBSCRIBE_CODE = Observable.subscribe.__code__
+PROBE_CALL_CODE = CallbackProbe.__call__.__code__
+
+
+class Top(ProbeObserver):
+    """Probe subscriber that, at the moment it really calls dispose(), remembers which library activations are still
+    on the stack: every Observable.subscribe() call in progress ("inflight_subscribe": its subscription handle does not
+    exist yet, so nothing can cancel what that call does synchronously before it returns -- the reason why the harness
+    itself has to postpone a dispose requested before its own subscribe() returned), and, when dispose() is called from
+    inside an operator's user callback, the operator activation that is calling that callback ("same_activation")."""
+
+    inflight: dict | None = None
+
+    def dispose(self) -> None:
+        if self.subscription is not None and self.dispose_seq is None:
+            frames: dict = {}
+            f = sys._getframe(1)
+            prev_code = None
+            while f is not None:
+                if f.f_code is SUBSCRIBE_CODE:
+                    frames[f] = "inflight_subscribe"
+                elif prev_code is PROBE_CALL_CODE and "same_activation" not in frames.values():
+                    frames[f] = "same_activation"
+                prev_code = f.f_code
+                f = f.f_back
+            self.inflight = frames
+        super().dispose()
+
+
+def watch_callbacks(b: P.Built, top: Top) -> None:
+    """After the dispose, a callback invoked while one of the remembered activations is still on the stack is marked by
+    a ("note", "inflight", tag) event directly behind its "cb" event."""
+    lab = b.lab
+    for p in b.g.callbacks:
+        def make(p: Any, orig: Any) -> Any:
+            def impl(*a: Any, **kw: Any) -> Any:
+                fr = top.inflight
+                if fr and top.dispose_seq is not None:
+                    f = sys._getframe(1)
+                    while f is not None:
+                        tag = fr.get(f)
+                        if tag is not None:
+                            lab.add("note", "inflight", tag, p.name)
+                            break
+                        f = f.f_back
+                return orig(*a, **kw)
+            return impl
+        p.impl = make(p, p.impl)
 
 
 def run(seed: int, idx: int, keep: list | None, variant: tuple | None) -> tuple:
@@ -65,14 +123,16 @@ def run(seed: int, idx: int, keep: list | None, variant: tuple | None) -> tuple:
     opts: dict = {}
     if variant is not None and variant[0] in "bd":
         opts["dispose_at"] = variant[1]
-    top = lab.observer("top", **opts)
+    top = Top(lab, "top", **opts)
+    if variant is not None:
+        watch_callbacks(b, top)
+    after = None
     if variant is not None and variant[0] == "a":
         j = variant[1]
 
-        def hook(n: int) -> None:
-            if n == j + 1:
+        def after(n: int) -> None:
+            if n == j:
                 top.dispose()
-        lab.action_hook = hook
     if variant is not None and variant[0] == "c":
         probe = next((p for p in b.g.callbacks if p.name == variant[1]), None)
         if probe is not None:
@@ -83,7 +143,7 @@ def run(seed: int, idx: int, keep: list | None, variant: tuple | None) -> tuple:
                     top.dispose()
                 return orig(*a, **kw)
             probe.impl = impl
-    P.execute(b, keep, top=top, as_callbacks=as_callbacks, trampoline=is_tramp(idx))
+    P.execute(b, keep, top=top, as_callbacks=as_callbacks, trampoline=is_tramp(idx), after_action=after)
     return b, top
 
 
@@ -107,7 +167,10 @@ def judge(b: P.Built, top: Any, keep: list | None) -> dict | None:
             out["problems"].append(("recv", "recv", e))
         elif e[2] == "cb":
             p = cbinfo[e[3]]
-            if live and nested_stage is not None and p.stage <= nested_stage and (unbounded or e[1] <= L):
+            nxt = ev[e[0] + 1] if e[0] + 1 < len(ev) else None
+            if nxt is not None and nxt[2] == "note" and nxt[3] == "inflight":
+                out["obs"]["callbacks_during_" + nxt[4]] += 1
+            elif live and nested_stage is not None and p.stage <= nested_stage and (unbounded or e[1] <= L):
                 out["obs"]["callbacks_excused_live_window"] += 1
             else:
                 out["problems"].append(("callback", p.role, e))
@@ -152,7 +215,7 @@ def variants(seed: int, idx: int, keep: list | None, tier: str, full: bool = Fal
         out += [("d", k) for k in (ks if not quick or len(ks) <= 4 else sorted({1, 2, R if R <= 8 else 8, r.choice(ks)}))]
     else:
         last = (b.term_action - 1) if b.term_action is not None else A - 1
-        lo = b.sub_action - 1
+        lo = b.sub_action
         if last >= lo:
             n = 10 if quick else (40 if not full else 10 ** 6)
             out += [("a", j) for j in sample_points(r, lo, last, n)]
